@@ -2115,6 +2115,10 @@ impl Value {
                 return arr.data.windows(2).all(|win| win[1].array_eq(&win[0]));
             }
             let row_len = arr.row_len();
+            if row_len == 0 {
+                // Empty rows are all the same
+                return true;
+            }
             arr.data.windows(2 * row_len).all(|win| {
                 win.iter()
                     .zip(win[row_len..].iter())
